@@ -330,3 +330,19 @@ ITEMS += [
                       text="assert(source@ == (if source0.len() > 0 && source0[0] == '\\u{FEFF}' { source0.skip(1) } else { source0 }));")],
          ensures=[('sanitised_copy', 'true')]),
 ]
+# ---- the hand-written renderer of the "defined here" window: where its caret goes (two identical statements) ----
+def _caret_fragment(nth):
+    return dict(src=SN, path='fn fmt_snippet_window_with_mapping_or_fallback', id='fmt_snippet_window_with_mapping_or_fallback#caret%d' % nth, props=P,
+         fragment=r'(let line_byte_start = [^;]*;\s*)?let caret_chars = [^;]*;', fragment_flags='S', fragment_nth=nth, fragment_count=2,
+         wrapper="fn caret_fragment_%d(window_text: &str, local_start: usize, col: usize) -> usize { {FRAG} caret_chars }" % nth,
+         rewrites=[(r"window_text\[\.\.local_start\]\s*\.rfind\('\\n'\)\s*\.map\(\|i\| i \+ 1\)\s*\.unwrap_or\(0\)", 'str_line_start_before(window_text, local_start)', 1, 'R8+R18'),
+                   (r'window_text\[line_byte_start\.\.local_start\]\.chars\(\)\.count\(\)', 'str_chars_count(str_slice(window_text, line_byte_start, local_start))', 1, 'R8')],
+         requires=[('the_marker_offset_is_a_char_boundary_of_the_window', 'local_start <= window_text.spec_bytes().len() && boundary(window_text@, local_start as int)')],
+         proofs=[dict(at='start', text='lemma_char_off_ends(window_text@);'),
+                 dict(before_re=r'let caret_chars = ', text="""
+                     lemma_slice_char_offs(window_text@, line_start_before(window_text.spec_bytes(), local_start as int), local_start as int);""")],
+         ensures=[('C17:the_caret_is_indented_by_the_number_of_characters_between_the_start_of_its_line_and_the_marker',
+                   """({ let ls = line_start_before(window_text.spec_bytes(), local_start as int);
+                       r == char_index(window_text@, local_start as int) - char_index(window_text@, ls) })""")],
+         canaries=['C17:the_caret_is_indented_by_the_number_of_characters_between_the_start_of_its_line_and_the_marker'])
+ITEMS += [_caret_fragment(1), _caret_fragment(2)]
